@@ -204,12 +204,12 @@ Section Inv.
       (forall k td l, P l -> P (aset key_eqb k td l)) ->
       (forall k l, P l -> P (adel key_eqb k l)) ->
       forall (st : state) c st' b, addM st c = Done st' b -> P (s_tracked st) ->
-                                   P (s_tracked st') /\ s_removed st' = s_removed st.
+                                   P (s_tracked st') /\ s_removed st' = s_removed st /\ s_tick st' = s_tick st.
   Proof.
     intros P Hset Hdel st [m d] st' b H HP.
     unfold add, add_locked, record, save, finish in H. simpl in H.
     inner_destruct_in H; try discriminate; injection H as H1 H2; subst st' b; simpl;
-      split; try reflexivity; repeat (first [assumption | apply Hset | apply Hdel]).
+      (split; [|split]); try reflexivity; repeat (first [assumption | apply Hset | apply Hdel]).
   Qed.
 
   Lemma NoDup_aset : forall (A : Type) k (a : A) l, NoDup (map fst l) -> NoDup (map fst (aset key_eqb k a l)).
@@ -542,7 +542,7 @@ Section Inv.
     intros h st st' [m d] b Hi H.
     pose proof (inv_wf _ _ Hi) as WF.
     destruct (add_shape (fun l => NoDup (map fst l)) (fun k td l => NoDup_aset _ k td l)
-                        (fun k l => NoDup_adel _ k l) st (m, d) st' b H (proj2 Hi)) as [ND SR].
+                        (fun k l => NoDup_adel _ k l) st (m, d) st' b H (proj2 Hi)) as [ND [SR _]].
     split; [|exact ND].
     intro k. destruct (key_eqb k (key_of m)) eqn:E.
     - apply key_eqb_eq in E. subst k. eapply add_inv_key; eauto.
@@ -696,5 +696,125 @@ Section Inv.
     intros ops st k fd Hr L.
     pose proof (run_inv ops [] init st init_inv Hr) as [I _]. simpl in I.
     destruct (I k) as [_ [I2 _]]. auto.
+  Qed.
+
+  (* ===== the converse: a complete valid sequence, delivered in order with arbitrary other
+     traffic in between, is finalised ===== *)
+
+  Lemma vfold_cons : forall v (c : chunk) r v',
+      vfoldM v (c :: r) = Some v' -> exists v1, vfoldM v [c] = Some v1 /\ vfoldM v1 r = Some v'.
+  Proof.
+    intros v [m d] r v' H. simpl in *. destruct (c_hasfi m); [eauto|].
+    destruct (vadd v d (c_id m)); try discriminate. eauto.
+  Qed.
+  Lemma replay_cons : forall files (c : chunk) r files',
+      replayM files (c :: r) = Some files' -> exists f1, replayM files [c] = Some f1 /\ replayM f1 r = Some files'.
+  Proof.
+    intros files [m d] r files' H. simpl in *.
+    destruct (bad_name (path_base (c_path m))); [discriminate|].
+    destruct (c_fcid m =? 0); [eauto|].
+    destruct (alookup bytes_eqb (path_base (c_path m)) files); [eauto|discriminate].
+  Qed.
+
+  (* one chunk of the stream arriving when it is the next expected one *)
+  Lemma stream_step :
+    forall (st : state) m0 v fi files n tk0 m d v1 files1,
+      n <> 0 ->
+      trk st (key_of m0) = Some (mkTracked m0 v fi tk0 n) ->
+      tmp st (tkey_of m0) = Some files ->
+      is_removed st (node_of m0) = false ->
+      key_of m = key_of m0 -> c_from m = c_from m0 ->
+      c_did m = my_did -> c_binver m = transport_bin_version -> c_id m = n ->
+      vfoldM v [(m, d)] = Some v1 -> replayM files [(m, d)] = Some files1 ->
+      addM st (m, d) =
+      let td' := mkTracked m0 v1 (add_fileinfo m fi) (s_tick st) (n + 1) in
+      let st2 := track (key_of m0) td' (track (key_of m0) (mkTracked m0 v (add_fileinfo m fi) (s_tick st) (n + 1)) st) in
+      let st3 := set_temps st2 (aset tkey_eqb (tkey_of m0) files1 (s_temps st2)) in
+      if is_last m then finish D V vfinal st3 m td' else Done st3 true.
+  Proof.
+    intros st m0 v fi files n tk0 m d v1 files1 Hn Ht Htmp Hrm Hk Hfrom Hdid Hbv Hidm Hv Hr.
+    pose proof (tkey_of_same _ _ Hk Hfrom) as Htk.
+    pose proof (node_of_same _ _ Hk) as Hnode.
+    simpl in Hv, Hr.
+    destruct (bad_name (path_base (c_path m))) eqn:Bad; [discriminate|].
+    assert (Hv1 : (if negb (c_hasfi m) && true then vadd v d n else VOk v) = VOk v1).
+    { destruct (c_hasfi m); simpl.
+      - injection Hv as Hv; subst; reflexivity.
+      - rewrite Hidm in Hv. destruct (vadd v d n); try discriminate. injection Hv as Hv; subst; reflexivity. }
+    set (fn := path_base (c_path m)) in *.
+    unfold add. simpl fst. rewrite Hdid, Hbv, !N.eqb_refl. simpl.
+    unfold add_locked, record.
+    apply N.eqb_neq in Hn. rewrite Hidm, Hn. rewrite Hk, Ht. simpl t_next. rewrite N.eqb_refl. simpl.
+    rewrite Hfrom, N.eqb_refl. simpl.
+    replace (is_removed (track (key_of m0) _ st) (node_of m)) with false
+      by (rewrite Hnode; symmetry; exact Hrm).
+    simpl t_v. rewrite Hv1.
+    rewrite Htk, Htmp. fold fn. rewrite Bad.
+    destruct (c_fcid m =? 0).
+    - injection Hr as Hr; subst. unfold set_v. simpl. reflexivity.
+    - destruct (alookup bytes_eqb fn files); [|discriminate]. injection Hr as Hr; subst.
+      unfold set_v. simpl. reflexivity.
+  Qed.
+
+  Lemma first_step :
+    forall (st : state) m0 d0 v0 files1,
+      clean D V max_slots st m0 ->
+      c_did m0 = my_did -> c_binver m0 = transport_bin_version -> c_id m0 = 0 ->
+      vfoldM vinit [(m0, d0)] = Some v0 -> replayM [] [(m0, d0)] = Some files1 ->
+      addM st (m0, d0) =
+      let td := mkTracked m0 v0 (add_fileinfo m0 []) (s_tick st) 1 in
+      let st2 := track (key_of m0) td (track (key_of m0) td st) in
+      let st3 := set_temps st2 (aset tkey_eqb (tkey_of m0) files1 (aset tkey_eqb (tkey_of m0) [] (s_temps st2))) in
+      if is_last m0 then finish D V vfinal st3 m0 td else Done st3 true.
+  Proof.
+    intros st m0 d0 v0 files1 [Ht [Hfull [Htmp [Hfin Hrm]]]] Hdid Hbv Hid0 Hv Hr.
+    simpl in Hv, Hr.
+    destruct (bad_name (path_base (c_path m0))) eqn:Bad; [discriminate|].
+    set (fn := path_base (c_path m0)) in *.
+    assert (Hv0 : (if c_hasfi m0 then VOk vinit else vadd vinit d0 0) = VOk v0).
+    { destruct (c_hasfi m0); [injection Hv as Hv; subst; reflexivity|]. rewrite Hid0 in Hv.
+      destruct (vadd vinit d0 0); try discriminate. injection Hv as Hv; subst; reflexivity. }
+    assert (Hfc : c_fcid m0 =? 0 = true).
+    { destruct (c_fcid m0 =? 0); auto. simpl in Hr. discriminate. }
+    rewrite Hfc in Hr. injection Hr as Hr; subst files1.
+    unfold add. simpl fst. rewrite Hdid, Hbv, !N.eqb_refl. simpl.
+    unfold add_locked, record. rewrite Hid0. simpl. rewrite Ht, Hfull.
+    assert (Hrec : forall (s : state) td, is_removed (track (key_of m0) td s) (node_of m0) = is_removed s (node_of m0))
+      by reflexivity.
+    destruct (c_hasfi m0) eqn:Hfi; simpl in Hv0;
+      try (injection Hv0 as Hv0; subst v0); try rewrite Hv0; rewrite Hrec, Hrm; simpl;
+        rewrite Htmp; simpl; rewrite alookup_aset_same by exact tkey_eqb_eq; fold fn; rewrite Bad, Hfc; reflexivity.
+  Qed.
+
+  Fixpoint count_ticks (ops : list (op D)) : N :=
+    match ops with
+    | [] => 0
+    | OTick :: r => 1 + count_ticks r
+    | _ :: r => count_ticks r
+    end.
+
+  Lemma gc_list_same_at : forall l (st : state) k,
+      (forall k1 td1, In (k1, td1) l -> key_of (t_first td1) = k1) ->
+      (forall td1, In (k, td1) l -> s_tick st - t_tick td1 < timeout) ->
+      same_at D V k st (gc_list D V timeout l st) /\
+      s_removed (gc_list D V timeout l st) = s_removed st.
+  Proof.
+    induction l as [|[k1 td1] l IH]; intros st k Hwf Hage; simpl.
+    - split; [apply same_at_refl|reflexivity].
+    - destruct (timeout <=? s_tick st - t_tick td1) eqn:E.
+      + assert (Hn : k1 <> k).
+        { intro X. subst k1. apply N.leb_le in E. specialize (Hage td1 (or_introl eq_refl)). lia. }
+        assert (Hk1 : key_of (t_first td1) = k1) by (apply Hwf; left; reflexivity).
+        destruct (IH (untrack k1 (remove_temp (tkey_of (t_first td1)) st)) k) as [S R].
+        * intros; apply Hwf; right; assumption.
+        * intros td2 H2. simpl. apply Hage. right. exact H2.
+        * split; [|rewrite R; reflexivity].
+          eapply same_at_trans; [|exact S].
+          eapply same_at_trans; [apply same_at_remove_temp|apply same_at_untrack].
+          -- rewrite tkey_key_of. congruence.
+          -- exact Hn.
+      + apply IH.
+        * intros; apply Hwf; right; assumption.
+        * intros td2 H2. apply Hage. right. exact H2.
   Qed.
 End Inv.
